@@ -68,8 +68,59 @@ def provisions(text, root, prefix):
             continue
         if not cn or keys[key] != 1:
             continue
-        out.append(('\n'.join(block_of(lines, i)) + '\n', parent, node))
+        out.append(('\n'.join(block_of(lines, i)) + '\n', parent, node, i))
     return out
+
+
+def localise_footnotes(text, i):
+    """the text with the footnote markers inside the provision that starts at line i made private to it (suffix L):
+    references outside can no longer take its blocks, references inside can no longer take blocks outside"""
+    lines = text.split('\n')
+    n = len(block_of(lines, i))
+    for j in range(i, i + n):
+        lines[j] = re.sub(r'\{\{FOOTNOTE ([^}\n]*?)\}\}', lambda m: '{{FOOTNOTE ' + m.group(1) + 'L}}', lines[j])
+        lines[j] = re.sub(r'^( *FOOTNOTE +)([^ \n]+)( *)$', lambda m: m.group(1) + m.group(2) + 'L' + m.group(3), lines[j])
+    return '\n'.join(lines)
+
+
+def classify(text, root, pfx, i):
+    """F48: footnote resolution is global to the document — a reference without a block of its own inside its provision takes
+    the block of another provision (or loses its own block to a reference elsewhere). Causal: with the provision's footnote
+    markers made private to it, the provision parsed alone equals its subtree."""
+    if '{{FOOTNOTE ' not in text:
+        return None
+    # the mechanism needs a marker that occurs inside the provision and, character for character, outside it as well
+    lines = text.split('\n')
+    n = len(block_of(lines, i))
+    inside, outside = '\n'.join(lines[i:i + n]), '\n'.join(lines[:i] + lines[i + n:])
+    marks = lambda t: ([m.strip() for m in re.findall(r'\{\{FOOTNOTE ([^}\n]*?)\}\}', t)], re.findall(r'^ *FOOTNOTE +([^ \n]+) *$', t, re.M))
+    (ri, bi), (ro, bo) = marks(inside), marks(outside)
+    if not any(m in ro or m in bo for m in set(ri) | set(bi)):
+        return None
+    t2 = localise_footnotes(text, i)
+    if t2 == text:
+        return None
+    for frag, parent, node, j in provisions(t2, root, pfx):
+        if j == i:
+            fr = real.strip_etree(real.convert(frag, 'hier_element', prefix=parent))
+            return 'F48' if fr.get('xml') == node else None
+    return None
+
+
+def cross_fn_doc(rng):
+    """provisions whose footnote references and blocks are not kept together: a reference in one provision, the block with
+    that marker in another"""
+    w = gen.Words(rng)
+    lines = ['CHAPTER 1']
+    marks = rng.choice([['1'], ['1', '2'], ['a'], ['1a', '1 a']])
+    for k in range(rng.randint(2, 4)):
+        lines.append('  SEC %d' % (k + 1))
+        m = rng.choice(marks)
+        r = rng.random()
+        lines.append('    ' + w.some(2) + ('{{FOOTNOTE %s}}' % m if r < 0.7 else ''))
+        if rng.random() < 0.5:
+            lines += ['    FOOTNOTE ' + rng.choice(marks), '      ' + w.some(2)]
+    return '\n'.join(lines) + '\n'
 
 
 def twin_doc(rng):
@@ -98,32 +149,47 @@ def run(ctx, info):
         ctx.oblige('model driver builds', 'tie', False, info.get('driver_log', '')[-800:])
     n = ctx.budget(120, 1500)
     nprov = nb = 0
+    known = {}
     frag_cases = []
     for _ in range(n):
         root = rng.choice(['act', 'bill', 'doc', 'statement', 'judgment', 'debateReport'])
         pfx = rng.choice(['', '', 'att_3'])
-        text = gen.doc_text(rng, root, corners=0.25, attrs_p=0.2, scatter=False).replace('\n\n', '\n') if rng.random() < 0.75 else twin_doc(rng)
+        k = rng.random()
+        text = gen.doc_text(rng, root, corners=0.25, attrs_p=0.2, scatter=False).replace('\n\n', '\n') if k < 0.7 else twin_doc(rng) if k < 0.9 else cross_fn_doc(rng)
         if text[:1] == ' ':
             # the first line's own indentation is discarded by pre_parse (finding F13 of C12); cut provisions from consistently laid out text
             text = 'PREFACE\n  x\nBODY\n' + text if root in ('act', 'bill', 'doc', 'statement', 'debateReport') else 'INTRODUCTION\n' + text
-        for frag, parent, node in provisions(text, root, pfx)[:6]:
+        for frag, parent, node, li in provisions(text, root, pfx)[:6]:
             nprov += 1
             fr = real.strip_etree(real.convert(frag, 'hier_element', prefix=parent))
             frag_cases.append((frag, 'hier_element', parent))
             if fr.get('xml') != node:
-                nb += 1
-                if len(failures) < 15:
-                    failures.append({'kind': 'oracle', 'finding': None,
+                fid = classify(text, root, pfx, li)
+                if fid:
+                    known[fid] = known.get(fid, 0) + 1
+                else:
+                    nb += 1
+                if len(failures) < 15 and (fid is None or known.get(fid) == 1):
+                    failures.append({'kind': 'oracle', 'finding': fid,
                                      'summary': f"provision {node[1].get('eId')!r}: parsed alone (prefix {parent!r}) it differs from its subtree in the document ({root})",
                                      'case': {'text': text, 'root': root, 'prefix': pfx, 'fragment': frag, 'parent': parent, 'eid': node[1].get('eId')}})
-    ctx.oblige('oracle: fragment parse with the enclosing eId as prefix = subtree of the whole-document parse', 'oracle', nb == 0,
-               f'{nb} differences over {nprov} provisions')
+    ctx.oblige('oracle: fragment parse with the enclosing eId as prefix = subtree of the whole-document parse (outside listed findings)', 'oracle', nb == 0,
+               f'{nb} unlisted differences over {nprov} provisions; listed classes hit {known}')
     e2e.tie_convert(ctx, drv, frag_cases[:ctx.budget(400, 4000)], failures,
                     label='tie convert (fragments): real parse_to_xml(fragment, hier_element, prefix) = model convert')
     cov = {'evaluations': nprov, 'distinct_nontrivial': len({f for f, r, p in frag_cases if f.count('\n') > 1}),
            'rule': 'generated documents; every hierarchical element whose eId is derived from its number and that is outside quotes, footnotes and attachments is cut out by indentation, dedented and parsed with root hier_element and its parent eId as prefix; non-trivial = distinct fragment of more than one line',
            'samples': [{'fragment': frag_cases[0][0][:300], 'parent': frag_cases[0][2]}] if frag_cases else []}
     return {'coverage': cov, 'failures': failures}
+
+
+def witness_fails(ctx, finding):
+    w = finding['witness']
+    for frag, parent, node, li in provisions(w['text'], w['root'], w.get('prefix', '')):
+        fr = real.strip_etree(real.convert(frag, 'hier_element', prefix=parent))
+        if fr.get('xml') != node and classify(w['text'], w['root'], w.get('prefix', ''), li) == finding['id']:
+            return True
+    return False
 
 
 def replay(ctx, rep):
